@@ -354,14 +354,17 @@ func c13CheckSealed(f *os.File, want []byte, when string) error {
 	}
 	// every way of modifying it must fail
 	attempts := map[string]func() error{
-		"write":        func() error { _, e := unix.Pwrite(fd, []byte("X"), 0); return e },
-		"append":       func() error { _, e := unix.Pwrite(fd, []byte("X"), int64(len(want))); return e },
-		"truncate0":    func() error { return unix.Ftruncate(fd, 0) },
-		"truncate+":    func() error { return unix.Ftruncate(fd, int64(len(want))+4096) },
-		"fallocate":    func() error { return unix.Fallocate(fd, 0, 0, int64(len(want))+4096) },
-		"punch-hole":   func() error { return unix.Fallocate(fd, unix.FALLOC_FL_PUNCH_HOLE|unix.FALLOC_FL_KEEP_SIZE, 0, 1) },
-		"mmap-shared":  func() error { _, e := unix.Mmap(fd, 0, 4096, unix.PROT_READ|unix.PROT_WRITE, unix.MAP_SHARED); return e },
-		"unseal":       func() error { _, e := unix.FcntlInt(uintptr(fd), unix.F_ADD_SEALS, 0); return e },
+		"write":      func() error { _, e := unix.Pwrite(fd, []byte("X"), 0); return e },
+		"append":     func() error { _, e := unix.Pwrite(fd, []byte("X"), int64(len(want))); return e },
+		"truncate0":  func() error { return unix.Ftruncate(fd, 0) },
+		"truncate+":  func() error { return unix.Ftruncate(fd, int64(len(want))+4096) },
+		"fallocate":  func() error { return unix.Fallocate(fd, 0, 0, int64(len(want))+4096) },
+		"punch-hole": func() error { return unix.Fallocate(fd, unix.FALLOC_FL_PUNCH_HOLE|unix.FALLOC_FL_KEEP_SIZE, 0, 1) },
+		"mmap-shared": func() error {
+			_, e := unix.Mmap(fd, 0, 4096, unix.PROT_READ|unix.PROT_WRITE, unix.MAP_SHARED)
+			return e
+		},
+		"unseal": func() error { _, e := unix.FcntlInt(uintptr(fd), unix.F_ADD_SEALS, 0); return e },
 		"reopen-write": func() error {
 			nf, e := unix.Open(fmt.Sprintf("/proc/self/fd/%d", fd), unix.O_RDWR, 0)
 			if e != nil {
